@@ -199,6 +199,26 @@ def _form(draw, g_holder, force_xlsx=False):
             form.pop("settings", None)
         feats.add("misspelled-sheets")
     if g.p("_", 0.15):
+        # both id columns on the settings sheet (form_id and id_string): legal, earns an advisory warning, and the converter drops one of
+        # them while reading -- from its own copy, never from the caller's workbook or from anything a later conversion sees
+        st_ = form.setdefault("settings", {})
+        if "id_string" not in st_:
+            if "form_id" in st_ and g.p("_", 0.5):
+                form["settings"] = {("id_string" if k == "form_id" else k): v for k, v in st_.items()}
+                form["settings_header_extra"] = ["form_id"]
+            else:
+                st_.setdefault("form_id", "fid" + str(g.integer(0, 99)))
+                st_["id_string"] = st_["form_id"] if g.p("_", 0.5) else "ids" + str(g.integer(0, 99))
+        feats.add("both-id-headers")
+    if g.p("_", 0.2):
+        # rows without a control (calculate, hidden) that share a name across groups: legal as long as nobody refers to the name
+        grps = [n for n, _ in model.walk(form["nodes"]) if n["k"] in ("g", "r") and n.get("ch") is not None]
+        if len(grps) >= 2:
+            nm_ = "bonus" + str(g.integer(0, 9))
+            for gr in grps[: g.integer(2, 3)]:
+                gr["ch"].append({"k": "q", "c": {"type": g.pick(["calculate", "hidden"]), "name": nm_, "calculation": "1 + " + str(g.integer(0, 9))}})
+            feats.add("same-name-controlless-rows")
+    if g.p("_", 0.15):
         form.setdefault("settings", {})["flat"] = "yes"       # legacy setting with form-wide name bookkeeping
         feats.add("flat")
     if g.p("_", 0.15) or force_xlsx:
